@@ -65,7 +65,7 @@ var propSpecs = map[string]PropSpec{
 			"C01:name": "C02:added-object-differs", "C01:metadata": "C02:added-object-differs", "C01:count": "C02:added-object-differs",
 			"C01:time": "C02:added-object-differs", "C01:oci-digest": "C02:added-object-differs"},
 		Corr: "corr.C02.history_view (accept/reject and full view after every step)"},
-	"C03": {Profile: Profile{MaxCap: 6, MaxOps: 24, BigData: true, Backends: bothBackends, Rejects: 80, DetBias: 500, FailReaders: true, Foreign: 150},
+	"C03": {Profile: Profile{MaxCap: 6, MaxOps: 24, BigData: true, Backends: bothBackends, Rejects: 80, DetBias: 500, FailReaders: true, Foreign: 150, Faults: true},
 		Kinds: kinds("file", "obj", "hdr", "shape"), Cases: [2]int{500, 8000}, Oracles: []string{"C03"},
 		Corr: "corr.C03.raw_bytes (whole file, byte for byte, after every step)"},
 	"C08": {Profile: Profile{MaxCap: 6, MaxOps: 24, Backends: bothBackends, Rejects: 200, ObsReload: true, DetBias: 350, FailReaders: true, Foreign: 150},
@@ -207,6 +207,11 @@ func runHistory(dir string, seed uint64, spec PropSpec, shipped string) (*Case, 
 				v = oracleC01(e, i, op, res, before)
 			case o == "C02" && (isMutator(op.Kind) || op.Kind == "create" || op.Kind == "reload" || op.Kind == "load"):
 				v = oracleC02(e, st, i, op, res)
+			case o == "C03" && (op.Fault != "" || e.desync) && isMutator(op.Kind):
+				// the store failed a call of this operation (or of an earlier one and nothing has been
+				// written since): what the *file* holds half-way is C09's subject; the comparison
+				// resumes, from the file as it is now, with the next operation that completes
+				st.prevBytes, st.havePrev = e.storeBytes(), false
 			case o == "C03" && (isMutator(op.Kind) || op.Kind == "create" || op.Kind == "load"):
 				if op.Kind == "create" || op.Kind == "load" {
 					st.prev, st.havePrev = takeSnap(e.f), true
@@ -357,6 +362,9 @@ func runHistory(dir string, seed uint64, spec PropSpec, shipped string) (*Case, 
 			g.badMagicVersion(img)
 		}
 		emit(&Op{Kind: "mkimg", Img: img})
+		if img.TableBehind {
+			truncated = true // the layout is outside the invariant's hypotheses: behaviour is compared, the invariant is not asserted
+		}
 		lo := emit(&Op{Kind: "load", Backend: pick(r, g.p.Backends), Foreign: true})
 		if img.BadMagicVersion {
 			if len(lo) > 0 && lo[0] == "res ok" {
